@@ -518,11 +518,13 @@ def _life_kind(step):
     if step["comp"] in OWN_COPY: return "own"
     return "deep" if any(r.startswith("deepcopy") for r in LIFE[life]) else "shallow"
 
+_SALT = [0]          # distinguishes the executions of one case: the throw-away generator of the setter route differs between them
 def _obtain(step, rng):
     comp = step["comp"]
     routes = list(LIFE[step.get("life", "ctor")])
     if routes[:1] == ["setter"]:
-        obj = COMPONENTS[comp][3](step.get("par", {}), numpy.random.Generator(numpy.random.PCG64(987654321)))
+        # constructed on a throw-away generator that is DIFFERENT in every execution (it is prior history: nothing may depend on it)
+        obj = COMPONENTS[comp][3](step.get("par", {}), numpy.random.Generator(numpy.random.PCG64(987654321 + _SALT[0])))
         obj.rng = rng
         routes = routes[1:]
     else:
@@ -535,6 +537,9 @@ def _obtain_pre(prog, rng):
     return {i: _obtain(s, rng) for i, s in enumerate(prog) if s.get("pre")}
 
 def _has_life(prog):
+    """is there a reference program without copies to compare with?  (not for the setter route on a component whose constructor
+    draws: there the requirement is only that nothing depends on the throw-away generator)"""
+    if any(s.get("life", "ctor").startswith("setter") and NO_SETTER(s["comp"]) for s in prog): return False
     return any(s.get("life", "ctor") != "ctor" for s in prog)
 
 def _ref_prog(prog):
@@ -596,6 +601,7 @@ def _single_run(case, tag):
     """ONE execution of a case.  repro: tag A / B = [history h1 / h2; objects made before the seeding; seed; program], R = the program
     without copies after an empty history.  isolated: tag 1 / 2 = [history h1 / h2; the generator; objects; program], 3 = without copies."""
     from pybrops.core.random import prng
+    _SALT[0] = {"A": 1, "B": 2, "R": 3, "1": 1, "2": 2, "3": 3}[tag] + (10 if _IN_FRESH[0] else 0)
     if case["kind"] == "repro":
         h = {"A": case["h1"], "B": case["h2"], "R": []}[tag]
         prog = _ref_prog(case["prog"]) if tag == "R" else case["prog"]
@@ -622,6 +628,7 @@ def _single_run(case, tag):
 # therefore forks, before it executes its first case, a "zygote" that never runs library code itself and only forks a child per job;
 # the child executes one `_single_run` from the pristine state and pipes the result back.
 _ZYG = None
+_IN_FRESH = [False]
 def _zygote():
     global _ZYG
     import os, json, signal
@@ -644,9 +651,12 @@ def _zygote():
                     try:
                         signal.alarm(170)                      # default action: the child dies, the parent reports it
                         job = json.loads(line)
+                        _IN_FRESH[0] = True
                         res = _single_run(job["case"], job["tag"])
                     except BaseException as e:
                         res = {"exc": type(e).__name__, "msg": str(e)[:300]}
+                    try: res["job"] = json.loads(line)["job"]
+                    except Exception: pass
                     try:
                         data = json.dumps(res).encode()
                         while data: data = data[os.write(w, data):]
@@ -659,7 +669,7 @@ def _zygote():
                     if not c: break
                     chunks.append(c)
                 os.close(r); os.waitpid(k, 0)
-                data = b"".join(chunks).decode() or json.dumps({"exc": "FreshProcessDied", "msg": "no result (killed or timed out)"})
+                data = b"".join(chunks).decode() or json.dumps({"exc": "FreshProcessDied", "msg": "no result (killed or timed out)", "job": json.loads(line).get("job")})
                 fout.write(data.replace("\n", " ") + "\n"); fout.flush()
         finally:
             os._exit(0)
@@ -667,21 +677,31 @@ def _zygote():
     _ZYG = (os.getpid(), os.fdopen(c2z_w, "w"), os.fdopen(z2c_r, "r"), pid)
     return _ZYG
 
+_JOB = [0]
 def _fresh_submit(job):
+    """hand one execution to a fresh process; returns a ticket for _fresh_collect (answers are matched by job number: an answer
+    that was never collected because the caller raised in between is skipped, not handed to the next case)"""
     import json
     try:
         z = _zygote()
-        z[1].write(json.dumps(job) + "\n"); z[1].flush()
-        return z
+        _JOB[0] += 1
+        z[1].write(json.dumps(dict(job, job=_JOB[0])) + "\n"); z[1].flush()
+        return (z, _JOB[0])
     except Exception as e:
         return {"exc": type(e).__name__, "msg": "zygote: %s" % e}
 
-def _fresh_collect(z):
+def _fresh_collect(ticket):
     import json
-    if isinstance(z, dict): return z
+    if isinstance(ticket, dict): return ticket
+    z, job = ticket
     try:
-        line = z[2].readline()
-        return json.loads(line) if line else {"exc": "FreshProcessDied", "msg": "zygote closed the pipe"}
+        while True:
+            line = z[2].readline()
+            if not line: return {"exc": "FreshProcessDied", "msg": "zygote closed the pipe"}
+            res = json.loads(line)
+            if res.get("job") == job:
+                res.pop("job", None); return res
+            if not isinstance(res.get("job"), int) or res["job"] > job: return {"exc": "FreshProcessDied", "msg": "answers out of order"}
     except Exception as e:
         return {"exc": type(e).__name__, "msg": "zygote: %s" % e}
 
@@ -711,13 +731,18 @@ def run_impl(case):
     if kind == "repro":
         res = {}
         fresh = _fresh_submit({"case": case, "tag": "B"})      # the B execution once more, in a process that has executed nothing yet
-        tags = ["A", "B"] + (["R"] if _has_life(case["prog"]) else [])        # R = reference: no copies anywhere
-        for tag in tags: res[tag] = _single_run(case, tag)
-        res["F"] = _fresh_collect(fresh)
+        try:
+            tags = ["A", "B"] + (["R"] if _has_life(case["prog"]) else [])        # R = reference: no copies anywhere
+            for tag in tags: res[tag] = _single_run(case, tag)
+        finally:
+            res["F"] = _fresh_collect(fresh)
         return res
     if kind == "isolated":
         fresh = _fresh_submit({"case": case, "tag": "2"})
-        one = _single_run(case, "1"); two = _single_run(case, "2")
+        try:
+            one = _single_run(case, "1"); two = _single_run(case, "2")
+        except BaseException:
+            _fresh_collect(fresh); raise
         res = {"py_moved": one["py_moved"], "np_moved": one["np_moved"], "ex_moved": one["ex_moved"], "out1": one["outs"], "out2": two["outs"],
                "r1": one["r_end"], "r2": two["r_end"]}
         if _has_life(case["prog"]):                  # reference: the same program without copies, from an equal generator state
@@ -847,6 +872,12 @@ def gen_cases(rng, tier):
         c = rng.choice([x for x in LIFE_COMPS if x not in OWN_COPY and x not in GA_COMPS and not x.startswith("SelProt")])
         prog = [life_step(c, rng.choice(LIFE_DEFAULT_DEEP), True)]
         cases.append(repro_case(prog, False)); cases.append(iso_case([life_step(c, rng.choice(LIFE_DEFAULT_DEEP), rng.random() < 0.5)]))
+    # the rng setter of the selection configurations (their constructor draws: no reference program; nothing may depend on the
+    # throw-away generator the object was constructed with)
+    for c in [x for x in LIFE_COMPS if NO_SETTER(x)]:
+        for rep in range(1 if quick else 3):
+            cases.append(iso_case([life_step(c, rng.choice(["setter", "setter+copy"]), False)]))
+            cases.append(repro_case([life_step(c, rng.choice(["setter", "setter+copy"]), rng.random() < 0.5)], False))
     # the rng setter of a selection protocol with default optimisers (known finding)
     for c in (rng.sample(SETTER_STALE, 3) if quick else SETTER_STALE):
         cases.append(iso_case([life_step(c, "setter", False)])); cases.append(repro_case([life_step(c, "setter", rng.random() < 0.5)], False))
@@ -998,7 +1029,8 @@ def classify(case, out, clauses):
         if any("global stream was advanced" in c or "not a function of the supplied generator" in c for c in clauses): return None
         if steps and min(steps) < deep[0]: return None
         marks = ("does not behave as its source", "does not consume the supplied generator", "outputs differ after the same seed",
-                 "stream differs at the end of the seeded program")
+                 "stream differs at the end of the seeded program", "differ between a process that executed other calls before and a fresh one",
+                 "differ between a used process and a fresh one")
         if all(any(m in c for m in marks) for c in clauses): return "C08-default-deepcopy-snapshots-rng"
         return None
     # `prot.rng = g` on a selection protocol whose default optimisers were built from the constructor's generator
@@ -1007,7 +1039,10 @@ def classify(case, out, clauses):
         if not clauses or any(c in GA_MEMETIC + DEAP_COMPS + NO_RNG_HELPER_COMPS for c in comps): return None
         if any("python's global" in c for c in clauses): return None
         if steps and min(steps) < stale[0]: return None
-        marks = ("does not behave as its source", "does not consume the supplied generator")
+        marks = ("does not behave as its source", "does not consume the supplied generator", "outputs differ after the same seed",
+                 "differ between a process that executed other calls before and a fresh one", "differs between a process that executed other calls before and a fresh one",
+                 "result is not a function of the supplied generator's state")
+        if any("global stream was advanced" in c for c in clauses): return None
         if all(any(m in c for m in marks) for c in clauses): return "C08-selprot-rng-setter-stale-optimiser"
         return None
     if case["kind"] == "repro":
